@@ -69,7 +69,7 @@ theorem run_invariant (step : D → S → Op → D × S × Out) (hframe : ∀ d 
             obtain ⟨s', ops', h1, h2, h3, h4⟩ := ih
               { dict := sys.dict, states := sys.states.set j (step sys.dict sj op).2.1,
                 pending := sys.pending.set j restj } j (step sys.dict sj op).2.1 restj
-              (by simp [List.getElem?_set, hlen1]) (by simp [List.getElem?_set, hlen2])
+              (by simp [hlen1]) (by simp [hlen2])
             refine ⟨s', ops', h1, h2, ?_, h4⟩
             rw [outputsOf_cons_self, List.cons_append, h3]
             simp [alone]
@@ -80,5 +80,277 @@ theorem run_invariant (step : D → S → Op → D × S × Out) (hframe : ∀ d 
             refine ⟨s', ops', h1, h2, ?_, h4⟩
             rw [outputsOf_cons_ne hji]
             exact h3
+
+
+/-! ## monotone shared state instead of the frame hypothesis
+
+`run` lets a step return a new shared component.  The frame hypothesis (`step` returns the one it got) is the
+special case `I := (· = d)` of the following: the shared component stays inside a set `I` (`hI`) and, inside `I`,
+neither the new private state nor the output of a step depends on it (`hins`). -/
+
+variable {G : Type}
+
+theorem aloneG_insensitive (step : G → S → Op → G × S × Out) (I : G → Prop)
+    (hI : ∀ g s op, I g → I (step g s op).1)
+    (hins : ∀ g g' s op, I g → I g' → (step g s op).2 = (step g' s op).2) :
+    ∀ (ops : List Op) (s : S) (g g' : G), I g → I g' → aloneG step g s ops = aloneG step g' s ops := by
+  intro ops
+  induction ops with
+  | nil => intro s g g' _ _; simp [aloneG]
+  | cons op rest ih =>
+    intro s g g' hg hg'
+    have h := hins g g' s op hg hg'
+    simp only [aloneG]
+    rw [h, ih (step g' s op).2.1 (step g s op).1 (step g' s op).1 (hI _ _ _ hg) (hI _ _ _ hg')]
+
+/-- under the frame hypothesis `aloneG` is `alone` -/
+theorem aloneG_eq_alone (step : D → S → Op → D × S × Out) (hframe : ∀ d s op, (step d s op).1 = d) :
+    ∀ (ops : List Op) (d : D) (s : S), aloneG step d s ops = alone step d s ops := by
+  intro ops
+  induction ops with
+  | nil => intro d s; simp [aloneG, alone]
+  | cons op rest ih => intro d s; simp only [aloneG, alone]; rw [hframe, ih]
+
+theorem run_invariant_mono (step : G → S → Op → G × S × Out) (I : G → Prop)
+    (hI : ∀ g s op, I g → I (step g s op).1)
+    (hins : ∀ g g' s op, I g → I g' → (step g s op).2 = (step g' s op).2) (g0 : G) (hg0 : I g0) :
+    ∀ (sched : List Nat) (sys : Sys G S Op) (i : Nat) (s : S) (ops : List Op),
+      I sys.dict → sys.states[i]? = some s → sys.pending[i]? = some ops →
+      ∃ s' ops', (run step sys sched).1.states[i]? = some s' ∧ (run step sys sched).1.pending[i]? = some ops' ∧
+        outputsOf i (run step sys sched).2 ++ aloneG step g0 s' ops' = aloneG step g0 s ops ∧
+        I (run step sys sched).1.dict := by
+  intro sched
+  induction sched with
+  | nil => intro sys i s ops hd hs hp; exact ⟨s, ops, hs, hp, by simp [run, outputsOf], hd⟩
+  | cons j rest ih =>
+    intro sys i s ops hd hs hp
+    simp only [run]
+    cases hsj : sys.states[j]? with
+    | none =>
+      have hst : stepThread step sys j = (sys, none) := by simp [stepThread, hsj]
+      rw [hst]
+      exact ih sys i s ops hd hs hp
+    | some sj =>
+      cases hpj : sys.pending[j]? with
+      | none =>
+        have hst : stepThread step sys j = (sys, none) := by simp [stepThread, hsj, hpj]
+        rw [hst]
+        exact ih sys i s ops hd hs hp
+      | some opsj =>
+        cases opsj with
+        | nil =>
+          have hst : stepThread step sys j = (sys, none) := by simp [stepThread, hsj, hpj]
+          rw [hst]
+          exact ih sys i s ops hd hs hp
+        | cons op restj =>
+          have hst : stepThread step sys j =
+              ({ dict := (step sys.dict sj op).1, states := sys.states.set j (step sys.dict sj op).2.1,
+                 pending := sys.pending.set j restj }, some (j, (step sys.dict sj op).2.2)) := by
+            simp [stepThread, hsj, hpj]
+          rw [hst]
+          simp only
+          have hd' : I (step sys.dict sj op).1 := hI _ _ _ hd
+          by_cases hji : j = i
+          · subst hji
+            have e1 : sj = s := by rw [hs] at hsj; exact (Option.some.inj hsj).symm
+            have e2 : op :: restj = ops := by rw [hp] at hpj; exact (Option.some.inj hpj).symm
+            subst e1; subst e2
+            have hlen1 : j < sys.states.length := by
+              rcases List.getElem?_eq_some_iff.mp hs with ⟨h, _⟩; exact h
+            have hlen2 : j < sys.pending.length := by
+              rcases List.getElem?_eq_some_iff.mp hp with ⟨h, _⟩; exact h
+            obtain ⟨s', ops', h1, h2, h3, h4⟩ := ih
+              { dict := (step sys.dict sj op).1, states := sys.states.set j (step sys.dict sj op).2.1,
+                pending := sys.pending.set j restj } j (step sys.dict sj op).2.1 restj hd'
+              (by simp [hlen1]) (by simp [hlen2])
+            refine ⟨s', ops', h1, h2, ?_, h4⟩
+            rw [outputsOf_cons_self, List.cons_append, h3]
+            have h := hins sys.dict g0 sj op hd hg0
+            simp only [aloneG]
+            rw [h, aloneG_insensitive step I hI hins restj (step g0 sj op).2.1 g0 (step g0 sj op).1 hg0 (hI _ _ _ hg0)]
+          · obtain ⟨s', ops', h1, h2, h3, h4⟩ := ih
+              { dict := (step sys.dict sj op).1, states := sys.states.set j (step sys.dict sj op).2.1,
+                pending := sys.pending.set j restj } i s ops hd'
+              (by simp [List.getElem?_set_ne hji, hs]) (by simp [List.getElem?_set_ne hji, hp])
+            refine ⟨s', ops', h1, h2, ?_, h4⟩
+            rw [outputsOf_cons_ne hji]
+            exact h3
+
+/-! ## once-cells -/
+
+variable {V R : Type}
+
+/-- every initialised cell holds what its initialiser gives -/
+def Consistent (f : Nat → V) (cs : Cells V) : Prop := ∀ c v, cs c = some v → v = f c
+
+theorem consistent_empty (f : Nat → V) : Consistent f Cells.empty := by
+  intro c v h; simp [Cells.empty] at h
+
+theorem consistent_set (f : Nat → V) (cs : Cells V) (c : Nat) (h : Consistent f cs) : Consistent f (cs.set c (f c)) := by
+  intro x v hx
+  unfold Cells.set at hx
+  by_cases hxc : x = c
+  · simp [hxc] at hx; rw [← hx, hxc]
+  · simp [hxc] at hx; exact h x v hx
+
+/-- on consistent cells a program returns its pure result, leaves the cells consistent, and the cells
+afterwards are: what it asked for is initialised, everything else is as before -/
+theorem exec_consistent (f : Nat → V) : ∀ (p : Prog V R) (cs : Cells V), Consistent f cs →
+    (p.exec f cs).1 = p.pure f ∧ Consistent f (p.exec f cs).2 ∧
+    ∀ x, (p.exec f cs).2 x = if x ∈ p.touched f then some (f x) else cs x := by
+  intro p
+  induction p with
+  | ret r => intro cs h; exact ⟨rfl, h, by intro x; simp [Prog.exec, Prog.touched]⟩
+  | getOrInit c k ih =>
+    intro cs h
+    cases hc : cs c with
+    | some v =>
+      have hv : v = f c := h c v hc
+      subst hv
+      obtain ⟨a1, a2, a3⟩ := ih (f c) cs h
+      simp only [Prog.exec, hc, Prog.pure, Prog.touched]
+      refine ⟨a1, a2, ?_⟩
+      intro x
+      rw [a3 x]
+      by_cases hx : x = c
+      · subst hx; simp [hc]
+      · simp [hx]
+    | none =>
+      obtain ⟨a1, a2, a3⟩ := ih (f c) (cs.set c (f c)) (consistent_set f cs c h)
+      simp only [Prog.exec, hc, Prog.pure, Prog.touched]
+      refine ⟨a1, a2, ?_⟩
+      intro x
+      rw [a3 x]
+      by_cases hx : x = c
+      · subst hx; simp [Cells.set]
+      · simp [hx, Cells.set]
+
+variable (init : D → Nat → V) (stepP : D → S → Op → Prog V (S × Out)) (d : D)
+
+theorem onceStep_preserves (cs : Cells V) (s : S) (op : Op) (h : Consistent (init d) cs) :
+    Consistent (init d) (onceStep init stepP d cs s op).1 :=
+  (exec_consistent (init d) (stepP d s op) cs h).2.1
+
+theorem onceStep_insensitive (cs cs' : Cells V) (s : S) (op : Op) (h : Consistent (init d) cs)
+    (h' : Consistent (init d) cs') : (onceStep init stepP d cs s op).2 = (onceStep init stepP d cs' s op).2 := by
+  have a := (exec_consistent (init d) (stepP d s op) cs h).1
+  have b := (exec_consistent (init d) (stepP d s op) cs' h').1
+  simp only [onceStep]
+  rw [a, b]
+
+theorem onceStep_cells (cs : Cells V) (s : S) (op : Op) (h : Consistent (init d) cs) (x : Nat) :
+    (onceStep init stepP d cs s op).1 x = if x ∈ (stepP d s op).touched (init d) then some (init d x) else cs x :=
+  (exec_consistent (init d) (stepP d s op) cs h).2.2 x
+
+theorem onceStep_state (cs : Cells V) (s : S) (op : Op) (h : Consistent (init d) cs) :
+    (onceStep init stepP d cs s op).2.1 = ((stepP d s op).pure (init d)).1 := by
+  have a := (exec_consistent (init d) (stepP d s op) cs h).1
+  simp only [onceStep]; rw [a]
+
+/-- "initialised, or some thread's remaining operations will ask for it": conserved by every step -/
+def Due (sys : Sys (Cells V) S Op) (x : Nat) : Prop :=
+  (sys.dict x).isSome ∨ ∃ (i : Nat) (s : S) (ops : List Op), sys.states[i]? = some s ∧ sys.pending[i]? = some ops ∧
+    x ∈ touchedAlone init stepP d s ops
+
+theorem stepThread_due (sys : Sys (Cells V) S Op) (j : Nat) (h : Consistent (init d) sys.dict) (x : Nat) :
+    Consistent (init d) (stepThread (onceStep init stepP d) sys j).1.dict ∧
+    (Due init stepP d (stepThread (onceStep init stepP d) sys j).1 x ↔ Due init stepP d sys x) := by
+  cases hsj : sys.states[j]? with
+  | none =>
+    have hst : stepThread (onceStep init stepP d) sys j = (sys, none) := by simp [stepThread, hsj]
+    rw [hst]; exact ⟨h, Iff.rfl⟩
+  | some sj =>
+    cases hpj : sys.pending[j]? with
+    | none =>
+      have hst : stepThread (onceStep init stepP d) sys j = (sys, none) := by simp [stepThread, hsj, hpj]
+      rw [hst]; exact ⟨h, Iff.rfl⟩
+    | some opsj =>
+      cases opsj with
+      | nil =>
+        have hst : stepThread (onceStep init stepP d) sys j = (sys, none) := by simp [stepThread, hsj, hpj]
+        rw [hst]; exact ⟨h, Iff.rfl⟩
+      | cons op restj =>
+        have hst : stepThread (onceStep init stepP d) sys j =
+            ({ dict := (onceStep init stepP d sys.dict sj op).1,
+               states := sys.states.set j (onceStep init stepP d sys.dict sj op).2.1,
+               pending := sys.pending.set j restj }, some (j, (onceStep init stepP d sys.dict sj op).2.2)) := by
+          simp [stepThread, hsj, hpj]
+        rw [hst]
+        refine ⟨onceStep_preserves init stepP d _ _ _ h, ?_⟩
+        have hcell := onceStep_cells init stepP d sys.dict sj op h x
+        have hstate := onceStep_state init stepP d sys.dict sj op h
+        have hlen1 : j < sys.states.length := by
+          rcases List.getElem?_eq_some_iff.mp hsj with ⟨h, _⟩; exact h
+        have hlen2 : j < sys.pending.length := by
+          rcases List.getElem?_eq_some_iff.mp hpj with ⟨h, _⟩; exact h
+        unfold Due
+        simp only
+        rw [hcell, hstate]
+        constructor
+        · rintro (h1 | ⟨i, s, ops, hs, hp, hx⟩)
+          · by_cases hm : x ∈ (stepP d sj op).touched (init d)
+            · exact Or.inr ⟨j, sj, op :: restj, hsj, hpj, by simp [touchedAlone, hm]⟩
+            · simp [hm] at h1; exact Or.inl h1
+          · by_cases hij : i = j
+            · subst hij
+              simp [hlen1] at hs
+              simp [hlen2] at hp
+              subst hs; subst hp
+              exact Or.inr ⟨i, sj, op :: restj, hsj, hpj, by simp [touchedAlone, hx]⟩
+            · have hji : j ≠ i := fun e => hij e.symm
+              rw [List.getElem?_set_ne hji] at hs hp
+              exact Or.inr ⟨i, s, ops, hs, hp, hx⟩
+        · rintro (h1 | ⟨i, s, ops, hs, hp, hx⟩)
+          · left
+            by_cases hm : x ∈ (stepP d sj op).touched (init d)
+            · simp [hm]
+            · simp [hm, h1]
+          · by_cases hij : i = j
+            · subst hij
+              rw [hsj] at hs; rw [hpj] at hp
+              have e1 := Option.some.inj hs
+              have e2 := Option.some.inj hp
+              subst e1; subst e2
+              simp only [touchedAlone, List.mem_append] at hx
+              rcases hx with hx | hx
+              · left; simp [hx]
+              · right
+                exact ⟨i, _, restj, by simp [hlen1], by simp [hlen2], hx⟩
+            · have hji : j ≠ i := fun e => hij e.symm
+              right
+              exact ⟨i, s, ops, by rw [List.getElem?_set_ne hji]; exact hs, by rw [List.getElem?_set_ne hji]; exact hp, hx⟩
+
+theorem run_due : ∀ (sched : List Nat) (sys : Sys (Cells V) S Op), Consistent (init d) sys.dict → ∀ x,
+    Consistent (init d) (run (onceStep init stepP d) sys sched).1.dict ∧
+    (Due init stepP d (run (onceStep init stepP d) sys sched).1 x ↔ Due init stepP d sys x) := by
+  intro sched
+  induction sched with
+  | nil => intro sys h x; exact ⟨h, Iff.rfl⟩
+  | cons j rest ih =>
+    intro sys h x
+    simp only [run]
+    obtain ⟨c1, d1⟩ := stepThread_due init stepP d sys j h x
+    obtain ⟨c2, d2⟩ := ih (stepThread (onceStep init stepP d) sys j).1 c1 x
+    exact ⟨c2, d2.trans d1⟩
+
+/-- a cell that is initialised stays as it is -/
+theorem run_cells_monotone : ∀ (sched : List Nat) (sys : Sys (Cells V) S Op), Consistent (init d) sys.dict →
+    ∀ x v, sys.dict x = some v → (run (onceStep init stepP d) sys sched).1.dict x = some v := by
+  intro sched
+  induction sched with
+  | nil => intro sys _ x v hx; exact hx
+  | cons j rest ih =>
+    intro sys h x v hx
+    simp only [run]
+    refine ih _ (stepThread_due init stepP d sys j h x).1 x v ?_
+    unfold stepThread
+    split
+    · rename_i sj op restj hs hp
+      simp only
+      rw [onceStep_cells init stepP d sys.dict sj op h x]
+      by_cases hm : x ∈ (stepP d sj op).touched (init d)
+      · simp [hm]; exact (h x v hx).symm
+      · simp [hm, hx]
+    · exact hx
 
 end Sched
